@@ -1,4 +1,5 @@
 //! Shared kit of the verification harness: engine, generators, reference evaluators, scheduler.
 pub mod engine;
+pub mod sched;
 pub use engine::{Budget, CaseResult, Outcome, Property, Tier};
 pub fn hello() {}
